@@ -1,0 +1,51 @@
+//go:build verif
+
+package kgo
+
+// Verification contracts (comments only), read by /verif/govc. Compiled only with -tags verif; no code.
+
+// ---- C08: the offset bookkeeping behind at-least-once autocommit (the per-call kernels; histories not decided) ----
+// dirty = one past the last record handed out by a poll; head = what autocommit and the default revoke commit;
+// under default autocommit (neither disabled nor greedy) only the START of the next poll promotes dirty to head.
+
+// updateUncommitted (after a poll returned records): each partition's dirty offset becomes one past its last
+// returned record, with that record's leader epoch; head moves with it only when autocommit is disabled or greedy -
+// under default autocommit head keeps its previous value.
+//@ func (g *groupConsumer) updateUncommitted(fetches Fetches)
+//@   prop C08
+//@   frozen g.cfg, g.cfg.autocommitDisable, g.cfg.autocommitGreedy
+//@   site store Offset#0 assert [one-past-the-last-returned-record] val == final.Offset + 1
+//@   site store Epoch#0 assert [with-that-records-leader-epoch] val == final.LeaderEpoch
+//@   site mapupdate uncommit#1 assert [dirty-is-that-position] mapkey == partition.Partition && val.dirty == set
+//@   site mapupdate uncommit#1 assert [head-not-advanced-under-default-autocommit] (!g.cfg.autocommitDisable && !g.cfg.autocommitGreedy) ==> (had && val.head == prev.head)
+//@   site mapupdate uncommit#1 assert [committed-untouched] had && val.committed == prev.committed
+
+// undirtyUncommitted (start of a poll): head becomes dirty; dirty and committed are not changed; nothing happens
+// when autocommit is disabled, greedy or marks-only.
+//@ func (g *groupConsumer) undirtyUncommitted()
+//@   prop C08
+//@   frozen g.cfg, g.cfg.autocommitDisable, g.cfg.autocommitGreedy, g.cfg.autocommitMarks
+//@   site mapupdate uncommit#0 assert [promotes-dirty-to-head-only] mapkey == partition && had && val.head == prev.dirty && val.dirty == prev.dirty && val.committed == prev.committed
+//@   site mapupdate uncommit#0 assert [default-autocommit-only] !g.cfg.autocommitDisable && !g.cfg.autocommitGreedy && !g.cfg.autocommitMarks
+
+// getUncommittedLocked(head, dirty): with head && !dirty every offset returned is the partition's head, and
+// partitions whose head is already committed are left out.
+//@ func (g *groupConsumer) getUncommittedLocked(head bool, dirty bool) (r map[string]map[int32]EpochOffset)
+//@   prop C08
+//@   site mapupdate EpochOffset#0 assert [dirty-only-on-request] head && dirty && val == uncommit.dirty && mapkey == partition
+//@   site mapupdate EpochOffset#1 assert [head-is-what-is-returned] head && !dirty && val == uncommit.head && uncommit.head != uncommit.committed && mapkey == partition
+//@   site mapupdate EpochOffset#2 assert [committed-view] !head && val == uncommit.committed && mapkey == partition
+
+// The autocommit loop asks for head offsets only.
+//@ func (g *groupConsumer) loopCommit()
+//@   prop C08
+//@   site call getUncommittedLocked#0 assert [autocommit-commits-head-only] arg1 && !arg2
+
+// The default revoke commits head as well (never the dirty offsets), and only when autocommit is enabled.
+//@ func (g *groupConsumer) defaultRevoke(_ context.Context, _ *Client, _ map[string][]int32)
+//@   prop C08
+//@   frozen g.cfg, g.cfg.autocommitDisable
+//@   site call getUncommitted#0 assert [revoke-commits-head-not-dirty] !arg1 && !g.cfg.autocommitDisable
+//@ func (g *groupConsumer) getUncommitted(dirty bool) (r map[string]map[int32]EpochOffset)
+//@   prop C08
+//@   site call getUncommittedLocked#0 assert [head-offsets-dirty-only-on-request] arg1 && arg2 == dirty
